@@ -105,3 +105,30 @@ func VerifC08ParserWindow() {
 	_, err := codestream.NewParser(data).Parse()
 	vrt.Out("err", c08b2i(err != nil))
 }
+
+func init() { vrt.Register("VerifC08ParserTiles", VerifC08ParserTiles) }
+
+// VerifC08ParserTiles: the front of jpeg2000.Decoder.Decode - codestream
+// parser, then tile layout / tile assembler built from the parsed SIZ - on a
+// valid codestream in which one whole 32-bit SIZ field (image extent, image
+// offset, tile size, tile offset) is symbolic.  (The full decoder with
+// symbolic main-header bytes does not finish; this covers the geometry it
+// derives from SIZ before any packet is read.)
+func VerifC08ParserTiles() {
+	base := vrt.Memo("c08valid0", func() []byte { return c08Valid(0) })
+	field := vrt.Choice("field", 0, 7)
+	data := make([]byte, len(base))
+	copy(data, base)
+	off := 8 + 4*field
+	for j := 0; j < 4; j++ {
+		data[off+j] = vrt.Byte("b")
+	}
+	vrt.C09Guard(data, 1)
+	cs, err := codestream.NewParser(data).Parse()
+	if err != nil || cs == nil || cs.SIZ == nil {
+		vrt.Out("err", 1)
+		return
+	}
+	ta := NewTileAssembler(cs.SIZ)
+	vrt.Out("tiles", c08b2i(ta != nil))
+}
